@@ -294,6 +294,7 @@ REGISTRY_TP[POOL + ".__init__"].monitor = PoolMonitor(exempt=(NB, NBA, THREADS))
 
 def pool_inv(c, p, heap="old"):
     rd = c.old if heap == "old" else c.new
+    gh = c.gold if heap == "old" else c.gnew
     q, ev, lk, lg = rd(p, "_queue"), rd(p, "_done_event"), rd(p, LOCK), rd(p, "_logger")
     import queue as _q_, threading as _t_
     return z3.And(
@@ -307,9 +308,9 @@ def pool_inv(c, p, heap="old"):
         V.is_int(rd(p, PEND)), V.is_int(rd(p, "_thread_id")), V.is_int(rd(q, "maxsize")), Val.i(rd(q, "maxsize")) >= 0,
         V.is_int(rd(q, "unfinished_tasks")), Val.i(rd(q, "unfinished_tasks")) >= 0,
         V.is_int(rd(p, NB)), V.is_int(rd(p, NBA)), V.is_list(rd(p, THREADS)), Val.llen(rd(p, THREADS)) >= 0,
-        V.is_list(c.gold("q_items")), Val.llen(c.gold("q_items")) >= 0,
-        V.is_list(c.gold("pool_accepted")), Val.llen(c.gold("pool_accepted")) >= 0,
-        Val.i(rd(q, "unfinished_tasks")) >= Val.llen(c.gold("q_items")),       # Queue: every queued item is unfinished
+        V.is_list(gh("q_items")), Val.llen(gh("q_items")) >= 0,
+        V.is_list(gh("pool_accepted")), Val.llen(gh("pool_accepted")) >= 0,
+        Val.i(rd(q, "unfinished_tasks")) >= Val.llen(gh("q_items")),       # Queue: every queued item is unfinished
         V.is_obj(rd(q, "all_tasks_done")), Val.ref(rd(q, "all_tasks_done")) >= 0,
         cond_owner(Val.ref(rd(q, "all_tasks_done"))) == Val.ref(q),
         pool_unbounded(Val.ref(p)) == (Val.i(rd(q, "maxsize")) == 0))      # definition of the abbreviation used by callers
@@ -377,6 +378,7 @@ Contract(
         ("accepts_callables_when_unbounded", lambda c: implies(z3.And(has_attr(c.a.method, sv("__call__")),
                                                                       pool_unbounded(Val.ref(c.a.self))), c.returns), ("C04", "C09")),
         ("callables_have_call", lambda c: implies(V.is_fun(c.a.method), has_attr(c.a.method, sv("__call__"))), ("C04",)),
+        ("pool_stays_wellformed", lambda c: pool_inv(c, c.a.self, "new"), ("C04", "C09", "C12")),
         # C10, safety core of the growth rule: when enqueue returns on a running pool, either a worker was just started,
         # or the workers are not all taken (pending <= threads), or the pool is at max_threads
         ("grows_when_all_workers_are_taken", lambda c: implies(
@@ -527,3 +529,58 @@ Contract(
     props=("C09", "C10", "C11"),
 )
 REGISTRY_TP[POOL + ".__run"].monitor = PoolMonitor(worker=True)
+
+
+# --- PooledJSONRPCServer (C12) -----------------------------------------------------------------------------------------------------
+import jsonrpclib.SimpleJSONRPCServer as _S
+PSRV = "jsonrpclib.SimpleJSONRPCServer.PooledJSONRPCServer"
+RPOOL = "_PooledJSONRPCServer__request_pool"
+FIELDS.declare(PSRV, RPOOL, type=POOL)
+
+
+def _psrv_inv(c):
+    p = c.old(c.a.self, RPOOL)
+
+    class _A(object):
+        pass
+    c2 = __import__("copy").copy(c)
+    a = _A()
+    a.self = p
+    c2.a = a
+    return z3.And(V.is_obj(p), Val.ref(p) >= 0, Val.ref(p) < ALLOC0, Val.ref(p) != Val.ref(c.a.self),
+                  C.subclass(C.cls_of(Val.ref(p)), TP.ThreadPool), pool_inv(c2, p),
+                  V.is_list(c.gold("shutdown_log")), Val.llen(c.gold("shutdown_log")) >= 0)
+
+
+Contract(
+    PSRV + ".process_request",
+    requires=[("server", _psrv_inv), ("pool-accepts", lambda c: pool_unbounded(Val.ref(c.old(c.a.self, RPOOL))))],
+    ensures=[("connection_handed_to_the_pool_once", lambda c: z3.And(
+        c.returns, Val.llen(c.gnew("pool_accepted")) == Val.llen(c.gold("pool_accepted")) + 1,
+        (lambda task: z3.And(z3.Select(Val.tat(task), 0) == V.VFun(bound_fn(c.a.self, sv("process_request_thread"))),
+                             z3.Select(Val.tat(task), 1) == tup(c.a.request, c.a.client_address)))(
+            z3.Select(Val.lat(c.gnew("pool_accepted")), Val.llen(c.gold("pool_accepted")))),
+        c.gnew("call_log") == c.gold("call_log")), ("C12",))],
+    modifies=[Field(lambda c: c.old(c.a.self, RPOOL), f) for f in (NB, NBA, THREADS, PEND, "_thread_id")] +
+             [Ghost(g) for g in ("pool_accepted", "q_items", "q_puts", "threads_started", "thread_start_failures", "call_log", "env_calls")] +
+             [Field(lambda c: c.old(c.old(c.a.self, RPOOL), "_queue"), "unfinished_tasks")] +
+             [Fresh(f) for f in ("_logger", "_done_event", _CB, _EX, _E + "event", _E + "data", _E + "exception", "_flag",
+                                 "name", "daemon", "args")],
+    props=("C12",),
+)
+
+Contract(
+    PSRV + ".server_close",
+    # C12: "server_close() alone when it never served" is allowed: no precondition on ghost `serving`
+    requires=[("server", _psrv_inv)],
+    ensures=[("closes_in_order", lambda c: implies(c.returns, z3.And(
+        Val.llen(c.gnew("shutdown_log")) == Val.llen(c.gold("shutdown_log")) + 2,
+        z3.Select(Val.lat(c.gnew("shutdown_log")), Val.llen(c.gold("shutdown_log"))) == V.S("shutdown"),
+        z3.Select(Val.lat(c.gnew("shutdown_log")), Val.llen(c.gold("shutdown_log")) + 1) == V.S("socket_closed"),
+        c.new(c.old(c.old(c.a.self, RPOOL), "_done_event"), "_flag") == V.B(True))), ("C12",))],
+    modifies=[Field(lambda c: c.old(c.a.self, RPOOL), f) for f in (NB, NBA, THREADS, PEND, "_thread_id")] +
+             [Field(lambda c: c.old(c.old(c.a.self, RPOOL), "_done_event"), "_flag"),
+              Field(lambda c: c.old(c.old(c.a.self, RPOOL), "_queue"), "unfinished_tasks")] +
+             [Ghost(g) for g in ("serving", "shutdown_log", "q_items", "q_gets", "q_dones", "q_puts", "pool_accepted")] + [Fresh("args")],
+    props=("C12",),
+)
